@@ -22,6 +22,7 @@ ASSUMPTIONS = [
     'DictStorage is run over plain dicts and (dict-shelve) over copy-on-access mappings: a pickling MutableMapping, and real shelve files closed and re-opened by a fresh DictStorage after every operation',
     'every write() is handed a fresh Envelope object that the caller does not mutate afterwards (DictStorage stores and returns that very object)',
     'updates and removes address live messages; the indexes of a marking round are distinct and inside the recipient list get() currently returns (what Queue._handle_partial_relay computes); get may address any id',
+    'set_recipients_delivered takes an "iterable of indexes": the same index sets are passed as list, tuple, set, frozenset, range, dict keys view, generator expression, iter(list), filter object, map object and a user-defined iterable class. The model sees the list of indexes one traversal yields; that one-shot iterables are traversed once only is exercised by the harness, "consumed twice" is not expressible in the model',
     'uuid4 is steered: the id-allocation loops draw from scripted candidates (collisions with live and removed ids included); mkstemp names are scripted',
     'redis runs come in two variants: announcements left on the list, and consumed by wait() before every load(); ids returned by load()/wait() are compared with == and type identity against what write() returned',
     'redis: besides the FakeRedis method-level stand-in, the sequences and an overlap stream run through the REAL redis-py client, GeventConnection and ConnectionPool that RedisStorage constructs, against an in-process RESP server (storefakes.RespServer, loopback socket, a few ms latency per command so that up to 40 operations are in flight at once)',
@@ -189,6 +190,39 @@ def canon_ts(t):
     return t
 
 
+class _Indexes(object):
+    """a user-defined iterable (no __len__, no __getitem__), re-iterable"""
+
+    def __init__(self, idxs):
+        self._idxs = list(idxs)
+
+    def __iter__(self):
+        return iter(list(self._idxs))
+
+
+def _as_range(x):
+    x = list(x)
+    if x and x == list(range(x[0], x[0] + len(x))):
+        return range(x[0], x[0] + len(x))
+    return x
+
+
+# The shapes an "iterable of indexes" can take.  ONE_SHOT ones can be traversed once only.
+SHAPES = {
+    'set': set, 'list': list, 'tuple': tuple, 'frozenset': frozenset,
+    'desc': lambda x: sorted(x, reverse=True),
+    'range': _as_range,
+    'dictkeys': lambda x: dict.fromkeys(x).keys(),
+    'genexpr': lambda x: (i for i in list(x)),
+    'iter': lambda x: iter(list(x)),
+    'filter': lambda x: filter(lambda i: True, list(x)),
+    'map': lambda x: map(int, list(x)),
+    'userclass': _Indexes,
+}
+ONE_SHOT = ('genexpr', 'iter', 'filter', 'map')
+UNORDERED = ('set', 'frozenset')
+
+
 class Clock(object):
     """stands in for the `time` module inside slimta.redisstorage"""
     now = 0
@@ -328,9 +362,7 @@ class Adapter(object):
             if k == 'incr':
                 return ('att', st.increment_attempts(id))
             if k == 'deliv':
-                arg = {'set': set, 'list': list, 'tuple': tuple, 'frozenset': frozenset,
-                       'desc': lambda x: sorted(x, reverse=True)}[form](o[2])
-                st.set_recipients_delivered(id, arg)
+                st.set_recipients_delivered(id, SHAPES[form](o[2]))
                 return ('unit',)
         except sf.OutOfIds:
             return ('noid',)
@@ -438,8 +470,9 @@ class Gen(object):
                     idxs = [i for i in range(n) if rng.random() < 0.45]
                     if self.misuse and rng.random() < 0.3:
                         idxs.append(n + rng.randrange(0, 2))
-                    form = rng.choice(['set'] * 7 + ['list'] * 2 + ['tuple', 'frozenset'])
-                    if form in ('list', 'tuple'):
+                    form = rng.choice(['set'] * 7 + ['list'] * 2 + ['tuple', 'frozenset', 'range', 'dictkeys', 'genexpr',
+                                                                    'iter', 'filter', 'map', 'userclass'])
+                    if form not in UNORDERED and form not in ('range', 'dictkeys'):
                         rng.shuffle(idxs)
                         if self.misuse and idxs and rng.random() < 0.2:
                             idxs.append(idxs[0])
@@ -608,8 +641,10 @@ def run_sequences(ctx, seqs, label, judged=True, cfgs=None):
                     nontrivial = any(o[0] in ('deliv', 'remove', 'incr') for o in ops)
                     ctx.evaluated((label, b, ci, tuple(ops), tuple(forms)), nontrivial=nontrivial)
                     ctx.count('seq:%s:%s' % (label, b))
-                    for o in ops:
+                    for o, f in zip(ops, forms):
                         ctx.count('op:' + o[0])
+                        if o[0] == 'deliv':
+                            ctx.count('marks-shape:' + f)
                     # correspondence
                     if got_all != model_res:
                         j = next(i for i in range(len(ops)) if got_all[i] != model_res[i])
@@ -630,10 +665,16 @@ def run_sequences(ctx, seqs, label, judged=True, cfgs=None):
                         if rr != want_all:
                             ctx.mismatch('reference', case, want_all, rr)
                     # oracle
+                    last_form = {}
                     for j, (o, got, want) in enumerate(zip(ops, got_all, want_all)):
+                        if o[0] == 'deliv':
+                            last_form[o[1]] = forms[j]
                         if got != want:
                             if judged:
                                 key = classify(b, o, got, want)
+                                if o[0] == 'get' and last_form.get(o[1]) in ONE_SHOT and got[0] == 'got' and want[0] == 'got' \
+                                        and (got[1], got[3], got[4]) == (want[1], want[3], want[4]):
+                                    key = 'c15:delivered-marks-lost-for-iterator-argument'
                                 if cfg.get('orphans') and o[0] == 'load' and got[0] == 'exc':
                                     key = 'c15:redis-load-raises-on-half-written-entry'
                                 fail(ctx, key, dict(case, at=j),
@@ -700,9 +741,10 @@ def stream_rounds(ctx, maxn):
             cur = [i for i in cur if assign[i] != rd]
         mins.append((n, rounds))
     mouts = ctx.model.batch('c15_rounds', [[names[:n], [list(r) for r in rounds]] for n, rounds in mins])
-    for b, form in [(b, f) for b in BACKENDS for f in ('set', 'list')]:
+    variants = [(b, dict(codec=False) if b == 'disk' else dict(mq=False)) for b in BACKENDS] + [('redis', dict(resp=True))]
+    for (b, vcfg), form in [(v, f) for v in variants for f in ('set', 'list', 'genexpr', 'iter', 'userclass')]:
         for (n, assign), (n_, rounds), mo in zip(cases, mins, mouts):
-            ad = Adapter(b, dict(codec=False) if b == 'disk' else dict(mq=False))
+            ad = Adapter(b, vcfg)
             try:
                 ad.do(('write', ('s@x', tuple(names[:n]), CONTENTS[0]), 1, (1,), (1, 2)))
                 cur = list(range(n))
@@ -713,15 +755,18 @@ def stream_rounds(ctx, maxn):
                     cur = [i for i in cur if assign[i] != rd]
                     got = ad.do(('get', 1))
                     want = tuple(names[i] for i in cur)
-                    case = dict(stream='rounds', backend=b, form=form, rcpts=names[:n], rounds=rounds, after_round=rd)
+                    case = dict(stream='rounds', backend=b, cfg=vcfg, form=form, rcpts=names[:n], rounds=rounds, after_round=rd)
                     if r != ('unit',) or got[0] != 'got' or got[2] != want:
                         key = 'c15:delivered-marks-not-a-list' if r == ('exc', 'TypeError') else 'c15:multi-round-marks'
+                        if form in ONE_SHOT and r == ('unit',):
+                            key = 'c15:delivered-marks-lost-for-iterator-argument'
                         fail(ctx, key, case, '%s: after rounds %r get() returned recipients %r, expected %r (original minus settled); mark returned %r'
                                  % (b, rounds[:rd + 1], got[2] if got[0] == 'got' else got, want, r))
                         ok = False
                         break
-                ctx.evaluated(('rounds', b, form, n, assign), nontrivial=sum(1 for r in rounds if r) >= 2)
-                ctx.count('rounds:' + b)
+                ctx.evaluated(('rounds', b, vcfg.get('resp', False), form, n, assign), nontrivial=sum(1 for r in rounds if r) >= 2)
+                ctx.count('rounds:' + b + (':resp' if vcfg.get('resp') else ''))
+                ctx.count('marks-shape:' + form)
                 if ok:
                     mfinal = mo[0] if b.startswith('dict') else mo[1]
                     mwant = tuple(U(x) for x in mfinal[0]) if mfinal else None
@@ -1080,7 +1125,7 @@ def replay(ctx, case):
         finally:
             ad.close()
     elif 'rounds' in c:
-        ad = Adapter(c['backend'], dict(codec=False) if c['backend'] == 'disk' else dict(mq=False))
+        ad = Adapter(c['backend'], c.get('cfg') or (dict(codec=False) if c['backend'] == 'disk' else dict(mq=False)))
         try:
             names = tuple(c['rcpts'])
             print('write', names, '->', ad.do(('write', ('s@x', names, CONTENTS[0]), 1, (1,), (1, 2))))
